@@ -41,7 +41,7 @@ type fctx struct {
 	natVars  map[*types.Var]bool
 	switchBreak []string // code for `break` inside the enclosing switch statements
 	views    map[*types.Var]viewInfo
-	inViewWriteback bool
+	viewBusy map[*types.Var]bool
 }
 
 func (c *fctx) fail(n ast.Node, format string, a ...interface{}) {
@@ -192,7 +192,7 @@ func (c *fctx) toInt(e ast.Expr) string {
 func (c *fctx) fieldName(n ast.Node, ty types.Type, f *types.Var) string {
 	if nm := derefNamed(ty); nm != nil && nm.Obj().Pkg() != nil {
 		key := nm.Obj().Pkg().Path() + "." + nm.Obj().Name()
-		if _, ext := c.t.extern.Types[key]; ext && nm.Obj().Pkg().Path() != c.t.curPkg {
+		if _, ext := c.t.extern.Types[key]; ext && !c.t.genPkgs[nm.Obj().Pkg().Path()] {
 			if m, ok := c.t.extern.Fields[key]; ok {
 				if l, ok := m[f.Name()]; ok {
 					return l
@@ -322,7 +322,7 @@ func (c *fctx) expr(e ast.Expr) string {
 			if ci.failed != "" {
 				c.fail(e, "function value %s, which is not translated", o.Name())
 			}
-			if ci.usesPrims || ci.usesGlobals || len(ci.mutated) > 0 {
+			if ci.usesPrims || ci.usesGlobals || len(ci.extGlobals) > 0 || len(ci.mutated) > 0 {
 				c.fail(e, "function value %s with hidden parameters", o.Name())
 			}
 			return c.t.qual(c.fi, ci)
@@ -653,6 +653,29 @@ func (c *fctx) cond(e ast.Expr) string {
 							return "(" + v + " ≠ .nil_)"
 						}
 						return "(" + v + " = .nil_)"
+					}
+				}
+				if v, _ := nilCompared(c.info, x, c.fi.nilable); v != nil {
+					if x.Op == token.NEQ {
+						return "(" + c.name(v) + "_isnil = false)"
+					}
+					return "(" + c.name(v) + "_isnil = true)"
+				}
+				if nm := derefNamed(lt); nm != nil && nm.Obj().Pkg() != nil {
+					key := nm.Obj().Pkg().Path() + "." + nm.Obj().Name()
+					if key == "hash.Hash" {
+						v := c.expr(other)
+						if x.Op == token.NEQ {
+							return "(Go.Mac.isNil " + v + " = false)"
+						}
+						return "(Go.Mac.isNil " + v + " = true)"
+					}
+					if f, ok := c.t.extern.NilTest[key]; ok && !c.t.genPkgs[nm.Obj().Pkg().Path()] {
+						v := "(" + fmt.Sprintf(f, c.expr(other)) + ")"
+						if x.Op == token.NEQ {
+							return "(" + v + " = false)"
+						}
+						return "(" + v + " = true)"
 					}
 				}
 				if pt, ok := lt.Underlying().(*types.Pointer); ok {
